@@ -172,7 +172,7 @@ def check_error(e, root, spec, who):
     elif name == "MissingElement":
         want = _render(ops) + f"[{e.index!r}]"
     else:
-        want = (" at " + _render(ops)) if ops else None
+        want = _render(ops) if ops else None      # the path text only; the wording around it is free
     if want is not None and want not in msg:
         raise Violation("message-without-path", f"{who}: message {msg!r} does not name {want!r}")
     return name, len(ops)
@@ -343,6 +343,22 @@ def _expected_composition(spec, S, v):
     return None
 
 
+def _with_placeholders(v, where):
+    """copy of v with `...` added as first / last item of every list (None if v holds no list)"""
+    found = [False]
+
+    def walk(x):
+        if isinstance(x, list):
+            found[0] = True
+            inner = [walk(i) for i in x]
+            return ([...] + inner) if where == "first" else (inner + [...])
+        if type(x) is dict:
+            return {k: walk(i) for k, i in x.items()}
+        return x
+    out = walk(v)
+    return out if found[0] else None
+
+
 def _siblings(root, ops):
     if not ops:
         return 0
@@ -358,7 +374,8 @@ def check(case, ctx):
     try:
         S = specs.build(spec)
     except DeclarationError as e:
-        raise HarnessError(f"undeclarable spec {spec!r}: {e}")
+        ctx.skip_undeclarable(None, e)
+        return
     v = values.realize(case["value"])
     try:
         errors = validate(S, v).get_errors()
@@ -392,6 +409,20 @@ def check(case, ctx):
         for e in serrors:
             name, depth = check_error(e, v, spec, "SubstitutorValidator")
             ctx.label(f"subst-kind:{name}@{'root' if depth == 0 else 'nested'}")
+        # the same value with `...` placeholders at the ends of its lists (what substitution accepts):
+        # the remaining errors must still point at the elements they talk about
+        for where in ("first", "last"):
+            vp = _with_placeholders(v, where)
+            if vp is None:
+                break
+            try:
+                perrors = S.__accept__(SubstitutorValidator(), value=vp).get_errors()
+            except Exception:  # noqa
+                ctx.label("substitution-validator-raised")
+                continue
+            for e in perrors:
+                check_error(e, vp, spec, f"SubstitutorValidator (value with `...` {where})")
+            ctx.label("subst-placeholders-checked")
     ctx.label("errors:%s" % ("0" if not errors else "1" if len(errors) == 1 else "2+"))
     if nontrivial:
         ctx.mark_nontrivial(case, sample_class=(spec["t"], len(errors) > 1))
